@@ -49,7 +49,7 @@ Lemma blinded_modexp_ext P f g f' g' :
   forall r0 a priv ent, blinded_modexp P f f' r0 a priv ent = blinded_modexp P g g' r0 a priv ent.
 Proof.
   intros Hf Hf' r0 a priv ent. unfold blinded_modexp. destruct ent as [bl|]; [|reflexivity].
-  cbv zeta. rewrite !Hf, !Hf'. reflexivity.
+  destruct (blinded_exponents P priv bl) as [e1 e2]. cbv zeta. rewrite !Hf, !Hf'. reflexivity.
 Qed.
 
 (* what cases.v evaluates is the model of the theorems *)
